@@ -24,6 +24,8 @@ pub enum Regime {
     Plateau,
     /// mostly m, every 50th value 1000 m
     Spikes,
+    /// gentle climb with one outlier 1e9 times larger at the third step (not carried forward)
+    Outlier,
 }
 
 impl Regime {
@@ -40,6 +42,7 @@ impl Regime {
             Regime::Walk => "walk",
             Regime::Plateau => "plateau",
             Regime::Spikes => "spikes",
+            Regime::Outlier => "outlier",
         }
     }
 }
@@ -108,7 +111,13 @@ impl Gen {
                     m
                 }
             }
+            Regime::Outlier => self.x,
         };
+        if r == Regime::Outlier {
+            // the level climbs gently; the outlier itself is not carried forward
+            self.x = self.x * 1.001 + 0.001 * m;
+            return if i == 2 { self.x * 1e9 } else { self.x };
+        }
         self.x = x;
         x
     }
